@@ -1032,6 +1032,73 @@ func fallback(r *mc.Run) {
 	r.NotExhaustive("hooks unavailable: only the exact regime is enumerated; the clauses that depend on random outcomes are not decided")
 }
 
+// typedValues are the elements of the typed exact-regime streams: six values
+// of different dynamic types that are pairwise distinct as interface values,
+// among them the nil interface and a typed nil pointer.
+func typedValues() []any {
+	return []any{nil, 0, "", (*int)(nil), struct{}{}, 1}
+}
+
+// checkTyped feeds one stream to counters of three element types, all below
+// their buffer size: Count must be the exact number of distinct values.
+func checkTyped(seq []int) *mc.Failure {
+	vals := typedValues()
+	ptrs := make([]*int, len(vals)) // ptrs[0] is the nil pointer
+	for i := 1; i < len(ptrs); i++ {
+		ptrs[i] = new(int)
+	}
+	strs := []string{"", "a", "b", "ab", " ", "\x00"}
+	ca, cp, cs := distinct.NewCounter[any](8), distinct.NewCounter[*int](8), distinct.NewCounter[string](8)
+	seen := map[int]bool{}
+	for i, v := range seq {
+		ca.Add(vals[v])
+		cp.Add(ptrs[v])
+		cs.Add(strs[v])
+		seen[v] = true
+		want := uint64(len(seen))
+		if ca.Count() != want || ca.Len() != len(seen) {
+			return mc.Failf(i, "Counter[any] size 8: Count=%d Len=%d after values %v of %#v, want %d distinct", ca.Count(), ca.Len(), seq[:i+1], vals, want)
+		}
+		if cp.Count() != want || cp.Len() != len(seen) {
+			return mc.Failf(i, "Counter[*int] size 8: Count=%d Len=%d after pointers %v (0 = nil), want %d distinct", cp.Count(), cp.Len(), seq[:i+1], want)
+		}
+		if cs.Count() != want || cs.Len() != len(seen) {
+			return mc.Failf(i, "Counter[string] size 8: Count=%d Len=%d after strings %v of %q, want %d distinct", cs.Count(), cs.Len(), seq[:i+1], strs, want)
+		}
+	}
+	return nil
+}
+
+// checkSeeds is a fixed execution, not an enumeration: the exact analysis
+// replaces the random source and so cannot see where the real constructor gets
+// its seed. Counters built by NewCounter must not replay one another's coins.
+func checkSeeds() *mc.Failure {
+	const k, n = 4, 2000
+	var traj [k][]uint64
+	for j := 0; j < k; j++ {
+		c := distinct.NewCounter[int](4)
+		for v := 0; v < n; v++ {
+			c.Add(v)
+			traj[j] = append(traj[j], c.Count())
+		}
+	}
+	for a := 0; a < k; a++ {
+		for b := a + 1; b < k; b++ {
+			same := true
+			for i := range traj[a] {
+				if traj[a][i] != traj[b][i] {
+					same = false
+					break
+				}
+			}
+			if same {
+				return mc.Failf(0, "counters %d and %d from NewCounter went through identical Counts on all %d additions (final Count %d): their random sources are not independent, so repeated runs cannot average to the true count", a, b, n, traj[a][n-1])
+			}
+		}
+	}
+	return nil
+}
+
 func main() {
 	mc.Main("C19", mc.Harness{
 		Name: "cvm",
@@ -1184,6 +1251,45 @@ func main() {
 			}
 			return checkHist(h)
 		},
+	}, mc.Harness{
+		Name: "cvm-typed",
+		Explore: func(r *mc.Run) {
+			L := mc.Pick(r, 5, 6)
+			seqs := mc.AllSeqs(len(typedValues()), L)
+			var nontriv int64
+			mc.ParallelFor(len(seqs), r.Workers, func(i int) {
+				if f := mc.Guard(func() *mc.Failure { return checkTyped(seqs[i]) }); f != nil {
+					r.Violation(mc.Case{Harness: "cvm-typed", Trace: mc.J(seqs[i]), Msg: f.Msg, Step: f.Step})
+				}
+				for _, v := range seqs[i] {
+					if v == 0 {
+						atomic.AddInt64(&nontriv, 1)
+						break
+					}
+				}
+			})
+			n := int64(len(seqs))
+			r.AddEval(n, n, n, nontriv)
+			r.Rule(fmt.Sprintf("exact regime for other element types: every stream of length <= %d over the values nil, 0, \"\", a nil *int, struct{}{} and 1 in a Counter[any] of size 8 (the same streams of pointers in a Counter[*int], of strings in a Counter[string]): Count and Len equal the number of distinct values after every Add; non-trivial = streams containing the nil interface", L))
+			r.Sample([]int{0, 1, 0})
+		},
+		Replay: func(c mc.Case) *mc.Failure {
+			var seq []int
+			if err := mc.Unmarshal(c.Trace, &seq); err != nil {
+				return mc.Failf(-1, "bad trace: %v", err)
+			}
+			return mc.Guard(func() *mc.Failure { return checkTyped(seq) })
+		},
+	}, mc.Harness{
+		Name: "cvm-seeds",
+		Explore: func(r *mc.Run) {
+			if f := checkSeeds(); f != nil {
+				r.Violation(mc.Case{Harness: "cvm-seeds", Trace: mc.J("seeds"), Msg: f.Msg})
+			}
+			r.AddEval(1, 1, 1, 1)
+			r.Rule("precondition of the statistical clause (independent seeds), one fixed execution: four counters of size 4 from the real NewCounter are fed the same 2,000 distinct values; no two may go through the same sequence of Counts (with independent seeds two trajectories coincide with probability below 2^-60; a seed shared by the process makes them coincide always)")
+		},
+		Replay: func(mc.Case) *mc.Failure { return checkSeeds() },
 	}, mc.Harness{
 		Name: "cvm-large", HangLimit: 20 * time.Minute,
 		Explore: func(r *mc.Run) {
